@@ -27,7 +27,7 @@ Import ListNotations.
 (* ---- W: worker instructions ------------------------------------------------------ *)
 Definition winstr (i : instr) : bool :=
   match i with
-  | ISvcStart _ | IApp _ | IErrTask _ | IWsChk1 _ | IFbh _ | IFbhAfter _ | IFbhLoop _ | IWsChk2 _
+  | ISvcStart _ | ISvcChkWc _ | IApp _ | IErrTask _ | IWsChk1 _ | IFbh _ | IFbhChk _ | IFbhAfter _ | IFbhLoop _ | IWsChk2 _
   | IWsAppend _ _ | IWsFlush _ | IWsAfter _ | ISvcEnd _ | ISetCwf _ | ISvcPop _ | ISvcTail _
   | IPull _ | IAddTask _ | IAcqO _ | IAcqR _ | IRelR _ | IWaitO _ | IWake _ _ | IContPre _ | IContAppend _
   | KFlushExc _ | KRelO _ | KRelR _ | KSvcTry _ | KSvcTry2 _ | KWorkerTop _ => true
